@@ -196,6 +196,20 @@ def check(repo: Repo, run: Run) -> None:
                    f"{macro} in {where} folds with `{ast.unparse(red)[:70]}`: "
                    + ("absorbing" if (want_fn in names and not effs) else (f"can raise {sorted(effs)}" if effs else f"is not built on {want_fn}")),
                    ev.loc(site_node))
+        # an early exit of the fold loop decided by the *truthiness* of the accumulator: an error value is truthy, so
+        # `if acc: break` in exists stops on an error as if it were true (a later true can no longer absorb it);
+        # `if not acc: break` in all stops only on false, which is what the fold would return anyway
+        for kind, node in FOLD_EXITS.get(id(site_node), []):
+            good = (macro == "all" and kind == "falsy")
+            if kind == "other":
+                run.inconclusive("C02.T4", f"{where}[{macro}]|early exit", f"the fold loop is left under `{ast.unparse(node.test)[:50]}`; whether that is exactly the absorbing value was not decided")
+            else:
+                run.ob("C02.T4", f"{where}[{macro}]|early exit", good,
+                       f"{macro} in {where} leaves its fold loop when the accumulator is {kind}: " +
+                       ("only false is falsy (errors are truthy), and false absorbs everything" if good else
+                        ("an error value is truthy too, so the loop stops on an error although a later true element would absorb it: the outcome depends on the order of the elements" if kind == "truthy"
+                         else "false does not decide exists")),
+                       ev.loc(node))
         init_txt = ast.unparse(strip_cast(init)) if init is not None else "?"
         run.ob("C02.T4", f"{where}[{macro}]|neutral", init_txt.endswith(f"BoolType({want_init})"),
                f"{macro} in {where} starts the fold from {init_txt}; neutral element is BoolType({want_init})", ev.loc(site_node))
@@ -334,6 +348,9 @@ def compiled_conditional(repo: Repo) -> Tuple[bool, str]:
                 "that logical_condition discards" if ok else "a branch of the compiled ?: is not wrapped by result()")
 
 
+FOLD_EXITS: Dict[int, list] = {}  # loop node id -> [(truthy | falsy | other, If node)] early exits of a fold loop
+
+
 def find_fold(fn: ast.AST, stmts):
     """(reducer expression with locals resolved, initial value, site) of the fold in ``stmts``:
     ``reduce(f, items, init)`` or ``acc = init; for x in items: acc = f(acc, g(x))``."""
@@ -358,11 +375,39 @@ def find_fold(fn: ast.AST, stmts):
         if isinstance(c, ast.Call) and dotted(c.func) in ("reduce", "functools.reduce") and len(c.args) >= 2:
             return resolve(c.args[0]), (resolve(c.args[2]) if len(c.args) > 2 else None), c
     for loop in ast.walk(body):
-        if isinstance(loop, ast.For) and len(loop.body) == 1 and isinstance(loop.body[0], (ast.Assign, ast.AnnAssign)):
-            a = loop.body[0]
+        if not isinstance(loop, ast.For):
+            continue
+        # the accumulator update: `acc = f(acc, x)` as the first statement, or `acc := f(acc, x)` in the test of the
+        # first statement; the remaining statements may only be conditional exits (judged by FOLD_EXITS below)
+        a = None
+        first = loop.body[0] if loop.body else None
+        if isinstance(first, (ast.Assign, ast.AnnAssign)):
+            a = first
+            rest = loop.body[1:]
+        elif isinstance(first, ast.If):
+            walrus = [w for w in ast.walk(first.test) if isinstance(w, ast.NamedExpr)]
+            if len(walrus) == 1:
+                a = ast.Assign(targets=[walrus[0].target], value=walrus[0].value, lineno=first.lineno, col_offset=first.col_offset)
+            rest = list(loop.body)
+        if a is None or not all(isinstance(st, ast.If) and all(isinstance(x, (ast.Break, ast.Return, ast.Pass, ast.Expr)) for x in st.body) and not st.orelse for st in rest):
+            continue
+        if True:
             tgt = a.targets[0] if isinstance(a, ast.Assign) else a.target
             v = strip_cast(a.value) if a.value is not None else None
             if isinstance(tgt, ast.Name) and isinstance(v, ast.Call) and len(v.args) == 2 and isinstance(strip_cast(v.args[0]), ast.Name) and strip_cast(v.args[0]).id == tgt.id:
+                for st in rest:
+                    t = st.test
+                    pol = True
+                    while isinstance(t, ast.UnaryOp) and isinstance(t.op, ast.Not):
+                        t, pol = t.operand, not pol
+                    if isinstance(t, ast.NamedExpr):
+                        t = t.target
+                    kind = "other"
+                    if isinstance(t, ast.Name) and t.id == tgt.id:
+                        kind = "truthy" if pol else "falsy"
+                    elif isinstance(t, ast.Call) and dotted(t.func) == "bool" and len(t.args) == 1 and isinstance(t.args[0], ast.Name) and t.args[0].id == tgt.id:
+                        kind = "truthy" if pol else "falsy"
+                    FOLD_EXITS.setdefault(id(loop), []).append((kind, st))
                 # the value the accumulator holds when the loop starts: its last assignment before the loop
                 init = None
                 for st in ast.walk(body):
